@@ -396,8 +396,8 @@ func C08(c *Ctx) error {
 		return nil
 	}
 	r := gen.New(c.Seed)
-	n := c.N(6, 22)
-	per := c.N(6, 18)
+	n := c.N(8, 60)
+	per := c.N(8, 30)
 	scs := make([]*c08Schema, n)
 	for i := range scs {
 		kind, req := c08MakeSchema(r, i)
@@ -711,6 +711,16 @@ func tsHandlerSeen(k *c08Case, calls any) (int, bool, any) {
 	return len(cs), c0["svc"] == k.svcTS() && c0["rpc"] == k.rpcTS(), c0["arg"]
 }
 
+// violationNames: does a 400 body ({"violations":[{"field":…}]}) blame the header `name`?
+func violationNames(body any, name string) bool {
+	for _, v := range asList(mapOf(body)["violations"]) {
+		if strings.EqualFold(fmt.Sprint(mapOf(v)["field"]), name) {
+			return true
+		}
+	}
+	return false
+}
+
 func (k *c08Case) wantReached() bool { return k.scenario == "ok" }
 
 // judge one direction. who: request sender's view.
@@ -729,10 +739,10 @@ func (k *c08Case) judgeTG() c08Obs {
 	status := jsonInt(k.tgB["status"])
 	threw := k.tgC != nil && k.tgC["threw"] == true
 	if !k.wantReached() {
-		if called == 0 && status == 400 && threw {
+		if called == 0 && status == 400 && threw && violationNames(k.tgB["body_json"], k.victim) {
 			return c08Obs{good: true}
 		}
-		return c08Obs{symptom: fmt.Sprintf("a request with a %s header %s: Go server status %d, handler invoked %d times, TS client threw=%v", k.scenario, k.victim, status, called, threw)}
+		return c08Obs{symptom: fmt.Sprintf("a request with a %s header %s: Go server status %d (%s), handler invoked %d times, TS client threw=%v", k.scenario, k.victim, status, clip(unb64(k.tgB["body"]), 160), called, threw)}
 	}
 	switch {
 	case called != 1:
@@ -753,10 +763,10 @@ func (k *c08Case) judgeTG() c08Obs {
 func (k *c08Case) judgeServedByTS(served map[string]any, calls any, status int) (bool, string) {
 	n, right, arg := tsHandlerSeen(k, calls)
 	if !k.wantReached() {
-		if n == 0 && status == 400 {
+		if n == 0 && status == 400 && violationNames(canonJSONBytes([]byte(fmt.Sprint(served["body"]))), k.victim) {
 			return true, ""
 		}
-		return false, fmt.Sprintf("a request with a %s header %s: TS server status %d, handler invoked %d times", k.scenario, k.victim, status, n)
+		return false, fmt.Sprintf("a request with a %s header %s: TS server status %d (%s), handler invoked %d times", k.scenario, k.victim, status, clip(fmt.Sprint(served["body"]), 160), n)
 	}
 	switch {
 	case n != 1:
@@ -831,7 +841,6 @@ func (k *c08Case) judgeTT() c08Obs {
 	}
 	return c08Obs{good: true}
 }
-
 
 func tsKindOf(kind string) string {
 	switch kind {
@@ -917,8 +926,8 @@ func (k *c08Case) modelOp() map[string]any {
 	return map[string]any{"op": "c08_case", "template": orEmpty(tpl), "verb": mi.verb, "fields": orEmpty(fields), "scenario": k.scenario,
 		"server_loads": len(k.sc.tsDefects) == 0,
 		"headers": map[string]any{"service": hspecs(mi.svc.Headers), "method": hspecs(mi.m.Headers),
-			"ts":  map[string]any{"defaults": sortedPairsOfMap(dh), "client_opts": sortedPairsOfMap(cl), "call_headers": sortedPairsOfMap(ch), "call_opts": sortedPairsOfMap(call)},
-			"go":  orEmptyPairs(goPairs), "intended": intended, "libs": libs}}
+			"ts": map[string]any{"defaults": sortedPairsOfMap(dh), "client_opts": sortedPairsOfMap(cl), "call_headers": sortedPairsOfMap(ch), "call_opts": sortedPairsOfMap(call)},
+			"go": orEmptyPairs(goPairs), "intended": intended, "libs": libs}}
 }
 
 var c08DefectClasses = map[string]bool{"path_value_dot_segment": true, "ts_header_option_shared": true, "required_query_zero_value": true,
